@@ -538,6 +538,53 @@ func genC11(o *hx.Out, tier string) {
 			o.Add("whole frames at the size limits", verdict, "expect", "ok", "size-limits "+c.name)
 		}
 	}
+	// ---- messages the application has already encoded (raw messages of the dialect whose payload ends
+	// in zero bytes) written to all channels of a v2 node: every channel gets every one of them as a
+	// valid frame, and the application's message is what it was before the call (it is shared by the
+	// writers of all channels) ----
+	{
+		pipes := []*scn.Pipe{scn.NewPipe("r0"), scn.NewPipe("r1"), scn.NewPipe("r2")}
+		node := newNode(pipes, func(nc *gomavlib.NodeConf) { nc.Dialect = d })
+		col := scn.NewCollector(node, 0, false)
+		_, ok := openChannels(col, pipes)
+		verdict := "ok"
+		if !ok {
+			verdict = "CHANNELS-NOT-OPEN"
+		} else {
+			mrw := drw.GetMessage(0)
+			const n = 40
+			var raws []*message.MessageRaw
+			var copies [][]byte
+			for i := 0; i < n; i++ {
+				full := mrw.Write(&minimal.MessageHeartbeat{Type: 1, CustomMode: uint32(i + 1)}, false) // v1 encoding: nothing stripped, ends in zeros
+				raw := &message.MessageRaw{ID: 0, Payload: append([]byte(nil), full.Payload...)}
+				raws = append(raws, raw)
+				copies = append(copies, append([]byte(nil), raw.Payload...))
+				node.WriteMessageAll(raw) //nolint:errcheck
+			}
+			for pi, p := range pipes {
+				p.WaitWrites(func(ws [][]byte) bool { return len(ws) >= n })
+				frs, err := scn.DecodeWire(p.Writes(), drw)
+				if err != nil || len(frs) != n {
+					verdict = fmt.Sprintf("PIPE-%d-WIRE %d frames of %d: %v", pi, len(frs), n, err)
+					break
+				}
+				for i, fr := range frs {
+					if hb, isHb := fr.GetMessage().(*minimal.MessageHeartbeat); !isHb || hb.CustomMode != uint32(i+1) || hb.Type != 1 {
+						verdict = fmt.Sprintf("PIPE-%d-FRAME-%d-OTHER-MESSAGE", pi, i)
+						break
+					}
+				}
+			}
+			for i, raw := range raws {
+				if verdict == "ok" && string(raw.Payload) != string(copies[i]) {
+					verdict = fmt.Sprintf("APPLICATION-MESSAGE-%d-MODIFIED payload of %d bytes became %d", i, len(copies[i]), len(raw.Payload))
+				}
+			}
+		}
+		node.Close()
+		o.Add("raw messages ending in zeros to all channels", verdict, "expect", "ok", "raw-to-all")
+	}
 	// ---- a stalled channel does not keep writes from the healthy ones ----
 	for sc := 0; sc < 4; sc++ {
 		pipes := []*scn.Pipe{scn.NewPipe("stalled"), scn.NewPipe("healthy")}
